@@ -291,14 +291,18 @@ class NativeFilestore(VirtualFilestore):
             return FilestoreResponseStatusCode.REMOVE_DIR_SUCCESS
         except OSError:
             _LOGGER.exception(f"Removing directory {dir_name} failed")
-            return FilestoreResponseStatusCode.RENAME_NOT_PERFORMED
+            return FilestoreResponseStatusCode.REMOVE_DIR_NOT_ALLOWED
 
     def create_directory(self, dir_name: Path) -> FilestoreResponseStatusCode:
         if dir_name.exists():
             # It does not really matter if the existing structure is a file or a directory
             return FilestoreResponseStatusCode.CREATE_DIR_CAN_NOT_BE_CREATED
-        os.mkdir(dir_name)
-        return FilestoreResponseStatusCode.CREATE_DIR_SUCCESS
+        try:
+            os.mkdir(dir_name)
+            return FilestoreResponseStatusCode.CREATE_DIR_SUCCESS
+        except OSError:
+            _LOGGER.exception(f"Creating directory {dir_name} failed")
+            return FilestoreResponseStatusCode.CREATE_DIR_CAN_NOT_BE_CREATED
 
     def list_directory(
         self, dir_name: Path, target_file: Path, recursive: bool = False
